@@ -162,7 +162,7 @@ func C12(c Ctx) *report.Report {
 	e := env.New(env.Opts{NUsers: 2, Tokens: []string{"cdash", "ceth", "cusdc"}})
 	e.BeginBlock()
 	for bits := 0; bits < 32; bits++ {
-		for variant := 0; variant < 4; variant++ { // 0 plain, 1 alias (unit_denom other), 2 unit_denom = denom, 3 unregistered
+		for variant := 0; variant < 6; variant++ { // 0 plain, 1 alias (unit_denom other), 2 unit_denom = denom, 3 unregistered, 4 alias whose base denom is the unit denom, 5 unit = denom with another base denom
 			reg := &tokenregistrytypes.Registry{Entries: []*tokenregistrytypes.RegistryEntry{regEntry("rowan", 7), regEntry("cusdc", 7)}}
 			en := regEntry("ceth", bits)
 			switch variant {
@@ -170,6 +170,10 @@ func C12(c Ctx) *report.Report {
 				en.UnitDenom = "cusdc"
 			case 2:
 				en.UnitDenom = "ceth"
+			case 4:
+				en.UnitDenom, en.BaseDenom = "cusdc", "cusdc"
+			case 5:
+				en.UnitDenom, en.BaseDenom = "ceth", "eth"
 			}
 			if variant != 3 {
 				reg.Entries = append(reg.Entries, en)
@@ -193,16 +197,19 @@ func C12(c Ctx) *report.Report {
 			}
 			enc.Len(n).I(0).I(7).B(false).I(e.DenomID["cusdc"]).I(7).B(false)
 			if variant != 3 {
-				enc.I(e.DenomID["ceth"]).I(int64(bits)).B(variant == 1)
+				enc.I(e.DenomID["ceth"]).I(int64(bits)).B(variant == 1 || variant == 4)
 			}
 			enc.I(e.DenomID["ceth"]).Z(amt).B(!refused)
 			trCases = append(trCases, enc.Coq())
-			desc := map[string]interface{}{"transfer": "ceth", "permission_bits": bits, "variant": []string{"plain", "alias", "unit=denom", "unregistered"}[variant],
+			desc := map[string]interface{}{"transfer": "ceth", "permission_bits": bits, "variant": []string{"plain", "alias", "unit=denom", "unregistered", "alias(base=unit)", "unit=denom(base other)"}[variant],
 				"amount": amt.String(), "code": res.Code, "log": trunc(res.Log, 120)}
 			rep.CaseIndex[fmt.Sprint(trID)] = desc
 			rep.Count(fmt.Sprintf("transfer.%s.reached=%v", desc["variant"], !refused))
 			// monitor
-			allowed := variant != 3 && variant != 1 && has(bits, 2)
+			allowed := variant != 3 && variant != 1 && variant != 4 && has(bits, 2)
+			if refused && allowed {
+				rep.Violate("C12/export-wrongly-refused", fmt.Sprintf("transfer of a registered, exportable, non-alias token (bits %d, %s) was refused by the gate", bits, desc["variant"]), desc)
+			}
 			if !refused && !allowed {
 				rep.Violate("C12/export-gate-bypassed", fmt.Sprintf("transfer of a token with bits %d (%s) was handed to ibc-go", bits, desc["variant"]), desc)
 			}
